@@ -1,4 +1,5 @@
 import SparseV.Props.C03
+import SparseV.Props.C03Gcxs
 #print axioms SparseV.C03.normalize_axis_spec
 #print axioms SparseV.C03.normalize_axis_range
 #print axioms SparseV.C03.reduce_rejects_when_inadmissible
@@ -15,3 +16,12 @@ import SparseV.Props.C03
 #print axioms SparseV.C03.reduce_src_spec
 #print axioms SparseV.C03.reduce_empty_axis_rejected
 #print axioms SparseV.C03.reduce_empty_axis_rejected_none
+#print axioms SparseV.C03.gcxs_from_coo_wf
+#print axioms SparseV.C03.gcxs_change_caxes_get
+#print axioms SparseV.C03.gcxs_reshape_get
+#print axioms SparseV.C03.gcxs_reduce_rows_spec
+#print axioms SparseV.C03.gcxs_reduced_axes_sorted
+#print axioms SparseV.C03.gcxs_reduce_add_get
+#print axioms SparseV.C03.gcxs_reduce_max_get
+#print axioms SparseV.C03.gcxs_reduce_min_get
+#print axioms SparseV.C03.gcxs_reduce_rejects
